@@ -4,45 +4,61 @@
 (*   Encrypt       the cipher is applied to the packet (ETM / AES-GCM: not to    *)
 (*                 the 4 length bytes)                                           *)
 (*   AppendMac     the MAC (or the GCM tag) is appended, the bytes are written   *)
-(* for every payload length 0..MaxN, block size, framing mode and MAC length.   *)
-(* The invariant is RFC 4253 section 6 on the packet that reaches the socket.   *)
+(*   SetOutboundCipher   a key switch on the SAME Packetizer: the framing mode,   *)
+(*                 block size and MAC length are those of the new key epoch      *)
+(* for every payload length 0..MaxN, block size, framing mode and MAC length,   *)
+(* and every sequence of up to MaxSwitch key switches between them.             *)
+(* The invariant is RFC 4253 section 6 on the packet that reaches the socket,   *)
+(* judged with the mode of the epoch the packet is written in.                  *)
 EXTENDS FramingDefs, TLC
 
 CONSTANTS MaxN,         \* payload lengths 0..MaxN
-          PadBase       \* the "3" of `padding = 3 + bsize - ...` (any other value is a mutation)
+          MaxSwitch,    \* key switches on one Packetizer
+          PadBase,      \* the "3" of `padding = 3 + bsize - ...` (any other value is a mutation)
+          StaleAlign    \* TRUE = mutation: the header length excluded from alignment is remembered from an
+                        \* earlier epoch (lowered to 4 by an ETM / AEAD epoch, never put back) instead of
+                        \* being taken from the current mode
 
 BlockSizes == {8, 16}
 MacSizes(mode) == IF mode = "plain" THEN {0} ELSE IF mode = "aead" THEN {16} ELSE {12, 16, 20, 32, 64}
 BlocksOf(mode) == IF mode = "plain" THEN {8} ELSE IF mode = "aead" THEN {16} ELSE BlockSizes
 
-VARIABLES n, b, mode, mac,   \* the configuration and the payload length of the packet in hand
+VARIABLES n, b, mode, mac,   \* the configuration of the current key epoch and the payload length of the packet in hand
           stage,             \* "idle" | "built" | "encrypted" | "written"
-          pkt                \* what has been computed so far
-vars == <<n, b, mode, mac, stage, pkt>>
+          pkt,               \* what has been computed so far
+          nsw,               \* key switches so far
+          align              \* header bytes _build_packet counts into the aligned portion
+vars == <<n, b, mode, mac, stage, pkt, nsw, align>>
 None == [n |-> 0, b |-> 0, mode |-> "none", mac |-> 0, padlen |-> 0, len_field |-> 0, enc_len |-> 0, raw_len |-> 0]
 
 Init == /\ mode \in Modes /\ b \in BlocksOf(mode) /\ mac \in MacSizes(mode)
-        /\ n = 0 /\ stage = "idle" /\ pkt = None
+        /\ n = 0 /\ stage = "idle" /\ pkt = None /\ nsw = 0 /\ align = AddLen(mode)
 
 BuildPacket == /\ stage = "idle"
-               /\ LET padding == PadBase + b - ((n + AddLen(mode)) % b) IN
+               /\ LET padding == PadBase + b - ((n + align) % b) IN
                     pkt' = [None EXCEPT !.n = n, !.b = b, !.mode = mode, !.mac = mac,
                                         !.padlen = padding, !.len_field = n + padding + 1]
-               /\ stage' = "built" /\ UNCHANGED <<n, b, mode, mac>>
+               /\ stage' = "built" /\ UNCHANGED <<n, b, mode, mac, nsw, align>>
 Encrypt     == /\ stage = "built"
                /\ pkt' = [pkt EXCEPT !.enc_len = IF LenInClear(mode) THEN pkt.len_field ELSE 4 + pkt.len_field]
-               /\ stage' = "encrypted" /\ UNCHANGED <<n, b, mode, mac>>
+               /\ stage' = "encrypted" /\ UNCHANGED <<n, b, mode, mac, nsw, align>>
 AppendMac   == /\ stage = "encrypted"
                /\ pkt' = [pkt EXCEPT !.raw_len = 4 + pkt.len_field + mac]
-               /\ stage' = "written" /\ UNCHANGED <<n, b, mode, mac>>
+               /\ stage' = "written" /\ UNCHANGED <<n, b, mode, mac, nsw, align>>
 NextPayload == /\ stage = "written" /\ n < MaxN
-               /\ n' = n + 1 /\ stage' = "idle" /\ pkt' = None /\ UNCHANGED <<b, mode, mac>>
-Next == BuildPacket \/ Encrypt \/ AppendMac \/ NextPayload
+               /\ n' = n + 1 /\ stage' = "idle" /\ pkt' = None /\ UNCHANGED <<b, mode, mac, nsw, align>>
+\* set_outbound_cipher (from _activate_outbound): later packets are framed for the new epoch
+SetOutboundCipher ==
+               /\ stage = "written" /\ nsw < MaxSwitch
+               /\ mode' \in Modes \ {"plain"} /\ b' \in BlocksOf(mode') /\ mac' \in MacSizes(mode')
+               /\ align' = IF StaleAlign THEN (IF LenInClear(mode') THEN 4 ELSE align) ELSE AddLen(mode')
+               /\ nsw' = nsw + 1 /\ n' = 0 /\ stage' = "idle" /\ pkt' = None
+Next == BuildPacket \/ Encrypt \/ AppendMac \/ NextPayload \/ SetOutboundCipher
 Spec == Init /\ [][Next]_vars
 
 (* ---- properties ---- *)
 Rfc4253      == stage = "written" => WellFramed(pkt)
 AgreesDefs   == stage = "written" => pkt = Build(n, b, mode, mac)       \* the step-wise machine = the closed form
 PadPeriodic  == stage = "written" /\ n >= b => pkt.padlen = Pad(n - b, b, mode)   \* padding depends on n mod b only
-Emit         == stage = "written" => PrintT(<<"CASE", mode, b, mac, n, pkt.padlen, pkt.len_field, pkt.raw_len>>)
+Emit         == (stage = "written" /\ nsw = 0) => PrintT(<<"CASE", mode, b, mac, n, pkt.padlen, pkt.len_field, pkt.raw_len>>)
 =============================================================================
